@@ -75,6 +75,17 @@ def _is_later(first: date, second: date) -> bool:
     return first > second
 
 
+def _is_same(first: date, second: date) -> bool:
+    """
+    Whether first and second are the same value: the two occurrences
+    of a repeated wall clock time compare equal but are different instants.
+    """
+    if isinstance(first, datetime) and isinstance(second, datetime):
+        return first == second and first.utcoffset() == second.utcoffset()
+
+    return first == second
+
+
 class Interval(Duration, Generic[_T]):
     """
     An interval of time between two datetimes.
@@ -360,8 +371,14 @@ class Interval(Duration, Generic[_T]):
         start, end = self.start, self.end
 
         i = amount
+        previous = None
         while op(start, end):
-            yield start
+            # A step that lands on a day which does not exist in the timezone
+            # (a whole day skipped) is moved onto the next value: yield it once
+            if previous is None or not _is_same(start, previous):
+                yield start
+
+            previous = start
 
             try:
                 start = getattr(self.start, method)(**{unit: i})
